@@ -226,6 +226,9 @@ func c13Run(f []string) string {
 		return ans
 	}
 	op := f[0]
+	if op == "groups" {
+		return c13RunGroups(f)
+	}
 	if op == "tparse" {
 		return c13TParse(string(UnHex(f[1])), UnHexListS(f[2]))
 	}
@@ -936,6 +939,12 @@ func c13Gen(r *Rand, tier string) []string {
 			}
 		}
 	}
+	// row order of `rare reduce` through the real AccumulatingGroup.Groups
+	if tier == "thorough" {
+		out = append(out, c13GroupsCases(r, 6000)...)
+	} else {
+		out = append(out, c13GroupsCases(r, 400)...)
+	}
 	// the modelled library calls against the real ones
 	if tier == "thorough" {
 		out = append(out, c13LibCases(r, 6000)...)
@@ -1007,6 +1016,39 @@ func c13Stats(cases []string) map[string]int {
 		st["op."+f[0]]++
 		switch f[0] {
 		case "lowtab":
+			continue
+		case "groups":
+			if f[3] == "." {
+				st["groups.noSortExpr"]++
+			} else {
+				ks := UnHexListS(f[3])
+				cnt := map[string]int{}
+				for _, k := range ks {
+					cnt[k]++
+				}
+				tie := false
+				for _, c := range cnt {
+					tie = tie || c > 1
+				}
+				if tie && len(cnt) > 1 {
+					st["groups.tieAndNonTie"]++
+				} else if tie {
+					st["groups.onlyTies"]++
+				}
+				if !c13Uniform("contextual", ks) {
+					st["groups.nonUniformSortKeys"]++
+				}
+			}
+			named := false
+			for _, g := range UnHexListS(f[2]) {
+				named = named || c13IsName(g, c13Weekdays) || c13IsName(g, c13Months)
+			}
+			if named {
+				st["groups.weekdayMonthGroupNames"]++
+			}
+			if f[1] == "1" {
+				st["groups.reversed"]++
+			}
 			continue
 		case "tparse":
 			lay := string(UnHex(f[1]))
@@ -1308,6 +1350,7 @@ func c13Corpus() []string {
 		}
 		out = append(out, c13TParseCases(rr, ks)...)
 	}
+	out = append(out, c13GroupsCorpus()...)
 	out = append(out, "tparse "+HexS("2006-01-02T15:04:05-0700")+" "+HexListS([]string{"2022-09-03T10:00:00+0000", "2022-09-03T12:00:00+0200", "2022-09-03T05:00:00-0500",
 		"2022-09-03T10:00:00+2400", "2022-09-03T10:00:00+2500", "2022-09-03T10:00:00+0060", "2022-09-03T10:00:00+0061", "2022-09-03T10:00:00 0000", "2022-09-03T10:00:00Z",
 		"2022-09-03T24:00:00+0000", "2022-02-29T10:00:00+0000", "2024-02-29T10:00:00+0000", "2022-09-03T10:00:00.5+0000", "2022-09-03T10:00:00,25+0000", "2022-09-03T10:00:60+0000",
